@@ -29,9 +29,56 @@ def run_property(prop, tier, root, quiet=False):
         run.notes.append('includes the rule instances of %s (a mechanism this property rests on)' % d)
         importlib.import_module('pcverif.props.%s' % d).check(run)
         todo.extend(DEPENDS.get(d, []))
+    if prop == 'C13':
+        sibling_cross_check(run, repo, tier)
     code = run.finish(level='other', explanation=getattr(mod, 'EXPLANATION', ''),
                       trusted=getattr(mod, 'TRUSTED', None))
     return code, run
+
+
+def sibling_cross_check(run, repo, tier):
+    """R13.sibling: the rules of the deterministic properties are evaluated on both packages; a rule that is violated in a
+    function of one package and holds in the function of the same qualified name of the other package is a disagreement
+    between the two implementations of one interface."""
+    from .registry import SIBLING_SOURCES
+    other = {'pyclifford': 'torchclifford', 'torchclifford': 'pyclifford'}
+    seen, inst = {}, {}
+    for d in SIBLING_SOURCES:
+        sub = Run(d, tier, repo)
+        sub.quiet = True
+        try:
+            importlib.import_module('pcverif.props.%s' % d).check(sub)
+        except AnalysisError:
+            pass          # instance floors of that property are decided by its own check
+        for fd in sub.findings:
+            pkg = fd.rel.split('/')[0]
+            seen.setdefault((fd.rule, fd.func), {}).setdefault(pkg, fd)
+        for i in sub.instances:
+            inst.setdefault((i['rule'], i['function']), set()).add(i['file'].split('/')[0])
+    compared = 0
+    for (rule, func), pk in sorted(inst.items()):
+        if len(pk) == 2:
+            compared += 1
+    for (rule, func), by_pkg in sorted(seen.items()):
+        if len(by_pkg) == 2:
+            continue      # both siblings break the rule: not a disagreement
+        pkg, fd = next(iter(by_pkg.items()))
+        sib_rel = fd.rel.replace(pkg, other[pkg], 1)
+        sib = repo.modules.get(sib_rel)
+        if sib is None or func not in sib.funcs:
+            if pkg == 'pyclifford':
+                continue  # operation not shared by the port
+        run.violation('R13.sibling', (fd.rel, fd.func), fd.construct,
+                      'rule %s is violated here and not in %s::%s: the two packages disagree on this operation (%s)'
+                      % (rule, sib_rel, func, fd.msg), line=fd.line)
+    for k in range(compared):
+        pass
+    run.instances.append({'rule': 'R13.sibling', 'file': '', 'function': '', 'construct': '%d rule instances present in both packages' % compared,
+                          'verdict': 'discharged', 'detail': 'verdicts compared pairwise'})
+    run.notes.append('R13.sibling compared %d (rule, function) instances present in both packages, from the rules of %s'
+                     % (compared, ', '.join(SIBLING_SOURCES)))
+    if compared < 150:
+        raise AnalysisError('R13.sibling compared only %d rule instances present in both packages (floor 150)' % compared)
 
 
 def main(argv):
